@@ -747,6 +747,7 @@ package jsonrpc
 
 //@ func WithReverseClient$1$1
 //@   may_panic
+//@   initphase -- runs in handleWS before the connection loop starts: the wsConn is not shared yet
 //@   at store client.exiting: assert reverse-client-is-per-connection: isfresh($obj) && $val == conn.exiting [C16]
 //@   at store client.namespace: assert reverse-client-is-per-connection: isfresh($obj) [C16]
 //@   at call (*client).setupRequestChan: assert queue-built-for-this-client: isfresh($0) [C16]
